@@ -21,6 +21,7 @@ TRUSTED_BASE = TRUSTED + [
     "the declarations the proofs assume are re-checked by `rfl` on every run (SchemaTie/Classify.lean)",
 ]
 SCHEMA_TIE = ('Classify',)
+SQL_TIE = ('classify',)
 ASSUMPTIONS = ASSUME
 RULE = ("records generated as sequences of events (dry spells, light rain, storms with lagged rises, unexplained "
         "rises, multi-burst storms, multi-rise storms) with per-step noise, fully random class sequences, hand-written "
